@@ -60,6 +60,14 @@ def write_paths(records, blocked):
             w.write(r)
     out['with'] = f.getvalue()
     out['vbs_list_to_bytes'] = mciipm.vbs_list_to_bytes(records, blocked=blocked)
+    if not blocked:
+        # the documented default is unblocked: the same calls without the keyword
+        out['vbs_list_to_bytes-default'] = mciipm.vbs_list_to_bytes(records)
+        f = io.BytesIO()
+        w = mciipm.VbsWriter(f)
+        w.write_many(records)
+        w.close()
+        out['VbsWriter-default'] = f.getvalue()
     return out
 
 
@@ -93,6 +101,15 @@ def oracle(records, blocked, paths=True):
         return 'readback:VbsReader', f'lengths {lens[:8]} blocked={blocked}: read back {[len(r) for r in back][:8]}' + _diff_records(records, back)
     if back2 != list(records):
         return 'readback:vbs_bytes_to_list', f'lengths {lens[:8]} blocked={blocked}: read back {[len(r) for r in back2][:8]}'
+    if not blocked:
+        try:
+            back3 = mciipm.vbs_bytes_to_list(first)
+            back4 = list(mciipm.VbsReader(io.BytesIO(first)))
+        except Exception as ex:
+            return exc_sig('read-raises-default', ex), f'reading back lengths {lens[:8]} with default arguments raised {ex!r}'
+        if back3 != list(records) or back4 != list(records):
+            return 'readback:default-arguments', (f'lengths {lens[:8]}: unblocked data read with default arguments gives '
+                                                  f'{[len(r) for r in back3][:8]} / {[len(r) for r in back4][:8]}')
     return None
 
 
@@ -126,7 +143,7 @@ def sweep_single(ctx, lo, hi, blocked):
         for kind in (('pos',) if ln % 97 else ('pos', 'zero', 'fill', 'prefix')):
             spec = [(ln, kind, b'')]
             n += 1
-            res = oracle(build(spec), blocked, paths=(ln % 50 == 0 or 1000 <= ln <= 1030 or ln >= 5990))
+            res = oracle(build(spec), blocked, paths=(ln % 50 == 0 or 1000 <= ln <= 1030 or ln >= 5990 or kind != 'pos'))
             if res:
                 ctx.report(res[0], {'spec': spec, 'blocked': blocked}, res[1])
     ctx.bulk(n, nontrivial_distinct=sum(1 for ln in range(lo, hi) if blocked or ln >= 1008),
